@@ -1021,7 +1021,36 @@ def truc_rule_table(ctx, crate):
             ctx.add(['C18'], 'H-SERDE', R + ty, '%s: the derived deserializer reports a missing field for %d of its %d fields (short sequence: %d): an absent field is silently replaced by a default' % (ty, missing, nf, short), key='%s|de-fields' % ty)
         else:
             ctx.inst('H-SERDE', '%s: all %d fields written unconditionally; all %d required when reading (map and sequence form)' % (ty, nf, nf))
-    ctx.floor(['C18'], 'H-TABLE', 4)
+    # a registration that is refused leaves the table as it was: the map is written through a vacant entry,
+    # or by an `insert` that a vacancy test (contains_key / get) of the same map dominates — never by an
+    # unconditional `insert` (which overwrites first and complains afterwards)
+    n_ins = 0
+    for x in crate.bodies:
+        if not (x.module or '').startswith('truc::record::type_resolver') or '::tests::' in x.path:
+            continue
+        xd = None
+        for bb, tm in x.calls():
+            cp = callee_path(tm) or ''
+            if not re.match(r'^alloc::collections::btree::map::BTreeMap::<[^>]*>::insert$', cp):
+                continue
+            xd = xd or local_defs(x)
+            rf = trace_value(x, xd, tm['args'][0])[-1]
+            on_types = rf[0] == 'ref' and any(isinstance(e, dict) and e.get('name') == 'types' for e in rf[2]['p'])
+            if not on_types:
+                continue
+            n_ins += 1
+            dom = x.dominators(unwind=False).get(bb, set())
+            tested = False
+            for bb2, tm2 in x.calls():
+                cp2 = callee_path(tm2) or ''
+                if bb2 in dom and bb2 != bb and re.match(r'^alloc::collections::btree::map::BTreeMap::<[^>]*>::(contains_key|get|get_key_value)$', cp2):
+                    r2 = trace_value(x, xd, tm2['args'][0])[-1]
+                    if r2[0] == 'ref' and any(isinstance(e, dict) and e.get('name') == 'types' for e in r2[2]['p']):
+                        tested = True
+            if not tested:
+                ctx.add(['C18'], 'H-TABLE', x.key, 'the type table is written by an unconditional `BTreeMap::insert` at %s: registering a name that is already there overwrites the entry (even if the call then panics), so the table no longer answers what was registered first' % fmt_span(tm['span']), key='overwrite|%s' % x.path)
+    ctx.inst('H-TABLE', 'the table is only written through vacant entries / tested inserts (%d plain inserts)' % n_ins)
+    ctx.floor(['C18'], 'H-TABLE', 5)
     ctx.floor(['C18'], 'H-SERDE', 4)
 
 
@@ -2590,6 +2619,29 @@ def truc_rule_current(ctx, crate):
                 t = blk['term']
                 if t['k'] == 'call' and callee_path(t) == GB + 'get_current_data':
                     add_blocks.add(bb)
+            if name == 'get_current_data':
+                # the pending additions are part of the current data whether or not a variant was closed yet:
+                # they are consulted by the function's own body on every path to its return (an access that
+                # only exists inside a closure handed to a combinator over `variants.last()` is conditional);
+                # a closure of the function that is called directly counts at its call site
+                touching = set()
+                for cl_ in crate.closures_of(x.path):
+                    for _, _, s2 in cl_.statements():
+                        if s2['k'] == 'assign' and 'place' in s2['rv'] and any(isinstance(e, dict) and e.get('name') == 'data_to_add' for e in s2['rv']['place']['p']):
+                            touching.add(cl_.path)
+                xdefs = local_defs(x)
+                for bb2, tm2 in x.calls():
+                    if (callee_path(tm2, resolved=False) or '').startswith('core::ops::function::Fn') and tm2['args']:
+                        c0 = trace_value(x, xdefs, tm2['args'][0])[-1]
+                        if c0[0] == 'ref':
+                            c0 = trace_value(x, xdefs, {'copy': {'l': c0[2]['l'], 'p': [], 'ty': None}})[-1]
+                        if c0[0] == 'rv' and c0[1].get('closure') in touching:
+                            add_blocks.add(bb2)
+                rets = [bb2 for bb2, blk2 in enumerate(x.blocks) if blk2['term']['k'] == 'return']
+                if not rets or not all(dom.get(r_, set()) & add_blocks for r_ in rets):
+                    ctx.add(['C12'], 'B-CURRENT', x.key, 'get_current_data does not consult the pending additions on every path of its own body (%s): while no variant is closed yet they are left out, so a name added twice before the first close is accepted' % ('only inside a closure' if touching and not add_blocks else 'not on every path'), key='get_current_data|additions-conditional')
+                else:
+                    ctx.inst('B-CURRENT', 'get_current_data chains the pending additions unconditionally')
             if name != 'get_current_datum_definition_by_name':
                 continue
             # every definition of the result that is not an explicit `Some(..)` may mean "absent"
